@@ -139,7 +139,14 @@ impl BuildJob<'_> {
         let newstamp = sf.read_stamp(ptx.state().env())?;
         if sf.is_generated()
             && !newstamp.is_missing()
-            && (sf.is_override || Stamp::detect_override(sf.stamp.as_ref().unwrap(), &newstamp))
+            // No recorded stamp: the target was marked as generated (by its own
+            // redo-stamp) in a build that never got as far as recording it.
+            // That is not a hand edit; build it again.
+            && (sf.is_override
+                || sf
+                    .stamp
+                    .as_ref()
+                    .map_or(false, |old| Stamp::detect_override(old, &newstamp)))
         {
             let nice_t = nice(ptx.state().env(), &t).map_err(RedoError::opaque_error)?;
             state::warn_override(&nice_t);
